@@ -10,7 +10,7 @@ open Element
 
 /-! ### `getArrays`, channel by channel -/
 
-theorem getArrays_getElem (e : Element) (t : Bool) (arr : Dict Chan ChOut) (h : e.getArrays t = .ok arr) :
+theorem g4_getArrays_getElem (e : Element) (t : Bool) (arr : Dict Chan ChOut) (h : e.getArrays t = .ok arr) :
     arr.length = e.chans.length ∧
     ∀ k (hk : k < e.chans.length) (hk' : k < arr.length),
       (arr[k]).1 = (e.chans[k]).1 ∧ chanOut t (e.chans[k]).2 = .ok (arr[k]).2 := by
@@ -27,12 +27,12 @@ theorem getArrays_getElem (e : Element) (t : Bool) (arr : Dict Chan ChOut) (h : 
     exact ⟨rfl, rfl⟩
 
 /-- and conversely: if every channel delivers, `getArrays` delivers the list of the results -/
-theorem getArrays_intro (e : Element) (t : Bool) (arr : Dict Chan ChOut) (hl : arr.length = e.chans.length)
+theorem g4_getArrays_intro (e : Element) (t : Bool) (arr : Dict Chan ChOut) (hl : arr.length = e.chans.length)
     (h : ∀ k (hk : k < e.chans.length) (hk' : k < arr.length),
       (arr[k]).1 = (e.chans[k]).1 ∧ chanOut t (e.chans[k]).2 = .ok (arr[k]).2) :
     e.getArrays t = .ok arr := by
   unfold Element.getArrays
-  apply mapM_ok_of_getElem _ _ _ hl
+  apply g4_mapM_ok_of_getElem _ _ _ hl
   intro k hk hk'
   obtain ⟨h1, h2⟩ := h k hk hk'
   simp only
@@ -44,7 +44,7 @@ theorem getArrays_intro (e : Element) (t : Bool) (arr : Dict Chan ChOut) (hl : a
 
 /-- a successful `_applyDelays`: the element validates with a numeric sample rate `sr`, and channel
     `k` (same id, same place) now holds `dEnt sr max(delays) (old entry) delays[k]` -/
-theorem applyDelays_getElem (e : Element) (ds : List Rat) (h : (e.applyDelays ds).err = none) :
+theorem g4_applyDelays_getElem (e : Element) (ds : List Rat) (h : (e.applyDelays ds).err = none) :
     ∃ m sr, e.validate = .ok m ∧ m.1 = .num sr ∧ ds.length = e.chans.length ∧
       (e.applyDelays ds).st.chans.length = e.chans.length ∧
       ∀ k (hk : k < e.chans.length) (hk' : k < (e.applyDelays ds).st.chans.length) (hd : k < ds.length),
@@ -68,7 +68,7 @@ namespace Sequence
 
 /-- `forge`'s delay step on one element: the delays are looked up by the element's own channel ids
     and handed to `_applyDelays`, which succeeds -/
-theorem delayElement_ok (s : Sequence) (e e' : Element) (h : s.delayElement e = .ok e') :
+theorem g4_delayElement_ok (s : Sequence) (e e' : Element) (h : s.delayElement e = .ok e') :
     ∃ ds, e.channels.mapM s.delayOf = .ok ds ∧ (e.applyDelays ds).err = none ∧ (e.applyDelays ds).st = e' := by
   unfold delayElement at h
   simp only [bind, Except.bind, delaysFor] at h
@@ -84,7 +84,7 @@ theorem delayElement_ok (s : Sequence) (e e' : Element) (h : s.delayElement e = 
       simp only [pure, Except.pure, Except.ok.injEq] at h
       exact ⟨ds, rfl, herr, h⟩
 
-theorem delayElement_intro (s : Sequence) (e : Element) (ds : List Rat) (h1 : e.channels.mapM s.delayOf = .ok ds)
+theorem g4_delayElement_intro (s : Sequence) (e : Element) (ds : List Rat) (h1 : e.channels.mapM s.delayOf = .ok ds)
     (h2 : (e.applyDelays ds).err = none) : s.delayElement e = .ok (e.applyDelays ds).st := by
   unfold delayElement
   simp only [bind, Except.bind, delaysFor, h1, h2, pure, Except.pure]
@@ -93,7 +93,7 @@ end Sequence
 
 /-! ### what the delay step keeps -/
 
-theorem dEnt_flags (sr M : Rat) (ent : ChEntry) (dl : Rat) (y : ChEntry) (h : Paths.dEnt sr M ent dl = .ok y) :
+theorem g4_dEnt_flags (sr M : Rat) (ent : ChEntry) (dl : Rat) (y : ChEntry) (h : Paths.dEnt sr M ent dl = .ok y) :
     y.flags = ent.flags := by
   unfold Paths.dEnt at h
   obtain ⟨d, fl⟩ := ent
@@ -104,7 +104,7 @@ theorem dEnt_flags (sr M : Rat) (ent : ChEntry) (dl : Rat) (y : ChEntry) (h : Pa
 
 /-- the delay step keeps the kind of a channel: a blueprint stays a blueprint (the delayed one), a
     raw-array channel keeps its keys and sample rate and gets every array padded -/
-theorem dEnt_data (sr M : Rat) (ent : ChEntry) (dl : Rat) (y : ChEntry) (h : Paths.dEnt sr M ent dl = .ok y) :
+theorem g4_dEnt_data (sr M : Rat) (ent : ChEntry) (dl : Rat) (y : ChEntry) (h : Paths.dEnt sr M ent dl = .ok y) :
     (∀ b, ent.data = .bp b → y.data = .bp (delayBP b dl M).st) ∧
     (∀ a sv, ent.data = .arr a sv →
       y.data = .arr (Paths.padAll (rhe (dl * sr)).toNat (rhe ((M - dl) * sr)).toNat a) sv) ∧
